@@ -121,6 +121,27 @@ def run_nat(shard, mon, S, table):
         spec = table[cc]
         rng = env.rng("C06", cc)
         forced = 0
+        # every field (and every structure block) once all zeros and once all nines, the rest random: with the
+        # reference's check digits, and with whatever digits chance gives (mostly wrong ones)
+        cls_all = R.position_classes(spec["bban_spec"]) or []
+        spans = {tuple(v) for v in data.positions(spec).values() if v[1] > v[0]}
+        off = 0
+        for lo_, hi_, _k in R.parse_spec(spec["bban_spec"]) or []:
+            spans.add((off, off + hi_))
+            off += hi_
+        for s_, e_ in sorted(spans):
+            for fill in "09":
+                if not all(fill in cls_all[i] for i in range(s_, min(e_, len(cls_all)))):
+                    continue
+                for _ in range(4):
+                    b = gen.random_bban(spec, rng, "digits")
+                    b = b[:s_] + fill * (e_ - s_) + b[e_:]
+                    fb = N.force_valid(cc, b)
+                    if fb is not None and fb[s_:e_] == fill * (e_ - s_) and R.matches_spec(spec["bban_spec"], fb):
+                        judge_one(mon, S, cc, fb, table, f"field-all-{fill}-forced")
+                    if R.matches_spec(spec["bban_spec"], b):
+                        judge_one(mon, S, cc, b, table, f"field-all-{fill}")
+                    mon.tally("fields_filled_with_zeros_or_nines")
         for i in range(sz["per"]):
             style = gen.STYLES[i % len(gen.STYLES)] if i % 5 == 0 else "uniform"
             b = gen.random_bban(spec, rng, style)
